@@ -28,8 +28,9 @@ ASSUMPTIONS = ["platforms claimed: ios and nxos (asa support is declared partial
 NATIVE = ("ios", "nxos")
 
 
-def _call_regex_under(ctx: Ctx, f: Func, plat: str, helper_names=("findall1", "findall2", "findall3", "re_find_t", "match", "search", "findall")) -> List[str]:
-    """Regex patterns (folded) that `f` applies on paths feasible for platform `plat`."""
+def _call_regex_under(ctx: Ctx, f: Func, plat: str, helper_names=("findall1", "findall2", "findall3", "re_find_t", "match", "search", "findall"), _depth: int = 0) -> List[str]:
+    """Regex patterns (folded) that `f` applies on paths feasible for platform `plat` (private helpers of the object
+    that `f` calls on those paths included)."""
     out: List[str] = []
     symenv = {"self._platform": plat, "self.platform": plat, "platform": plat}
     for p in function_paths(ctx.cfg(f)):
@@ -55,6 +56,12 @@ def _call_regex_under(ctx: Ctx, f: Func, plat: str, helper_names=("findall1", "f
             roots = [node.ast] if node.kind != "for" else [node.ast.iter]
             for r in roots:
                 for x in ast.walk(r):
+                    if isinstance(x, ast.Call) and isinstance(x.func, ast.Attribute) and src(x.func.value) == "self" and f.cls is not None and _depth < 2:
+                        m = f.cls.lookup_method(x.func.attr)
+                        if m is not None and m is not f:
+                            for v in _call_regex_under(ctx, m, plat, helper_names, _depth + 1):
+                                if v not in out:
+                                    out.append(v)
                     if isinstance(x, ast.Call) and ((isinstance(x.func, ast.Attribute) and x.func.attr in helper_names) or (isinstance(x.func, ast.Name) and x.func.id in helper_names)) and x.args:
                         v = ctx.folder.fold(x.args[0], f.module, env)
                         vals = [v]
